@@ -100,7 +100,7 @@ theorem tstep_shape (sh : Shared) (pc : PC) (hn : 0 < sh.words.length) (hloc : l
       · have e : tstep sh (.c8 id) = (sh, .c9 id b, none) := by
           simp only [tstep, hlt, hb, ↓reduceIte, if_neg hbit]
         rw [e]; exact ⟨rfl, rfl, hq0 rfl rfl, hq0 rfl rfl, fun h => h, by simp⟩
-    · have e : tstep sh (.c8 id) = (sh, .idle, some .crashIndex) := by
+    · have e : tstep sh (.c8 id) = (sh, .idle, some (.cleared false)) := by
         simp only [tstep, hlt, ↓reduceIte]
       rw [e]; exact ⟨rfl, rfl, hq0 rfl rfl, hq0 rfl rfl, fun _ => trivial, by simp⟩
   | c9 id b =>
